@@ -12,12 +12,19 @@
          returns U for B[n,m] = delta_nm / w_n + sum_i M_T[i,n] Lambda_i M_T[i,m], the worker returns
          -1/2 (chi^2 + sum_i ln(2 pi |U_ii|)) with chi^2 = sum_nm (b_m - y_m) Binv[n,m] (b_n - y_n), b = M mu and
          Binv[n,m] = delta_nm w_n - sum_ij w_n M_T[i,n] Y[i,j] M_T[j,m] w_m -- sums in the loops' own order, no ring law used.
-   What is NOT proved (partial): the passage from those loop-order sums to the MathComp matrices of (b) (a bigop bridge), the
-   LAPACK oracles' specifications, floating point.  Each generated input is still certified end to end by Coq
-   (Model/KernelRun.v check_code bit 1: exact equality of chi^2, |det B|, B, B^-1, a, Ainv with the closed form). *)
+     (d) C01_marginal_is_gaussian (Proofs/KernelBridge2.v): (a)-(c) put together over any MathComp field, for every number of
+         epochs and linear parameters and every state: the value returned by the generated entry point of one sample
+         (prelude: K column from the Kepler oracle, jitter folded into the inverse variances, K-prior variance by the declared rule
+         with its cap; then the worker) is  -1/2 ( r^T B^-1 r + sum_i ln(2 pi |U_ii|) )  with r = M mu - y,
+         B = diag(1/w) + M Lambda M^T, w = the jittered inverse variances (1/w = sigma^2 + s^2 by C01_jitter_is_added_variance),
+         B^-1 a two-sided inverse of B -- provided the inversion oracle returned a right inverse of Lambda^-1 + M^T C_s^-1 M.
+   What remains assumed (partial): the LU oracle's diagonal gives ln|det B| (LAPACK contract; the determinant identities of (b)
+   say what det B is), the oracles succeed, IEEE rounding.  Each generated input is additionally certified end to end by Coq
+   (Model/KernelRun.v check_code bit 1: exact equality of chi^2, |det B|, B, B^-1, a, Ainv with the closed form, where the
+   executable oracles are exact Gauss-Jordan and |det B| is compared exactly). *)
 From mathcomp Require Import all_ssreflect all_fingroup all_algebra.
 From Coq Require Import ZArith.
-From TJ Require Import Base.Imp Base.Fops Gen.KernelPyx Proofs.KernelChar Proofs.KernelBridge Proofs.KernelAlg Proofs.KernelLoops.
+From TJ Require Import Base.Imp Base.Fops Gen.KernelPyx Proofs.KernelChar Proofs.KernelBridge Proofs.KernelAlg Proofs.KernelLoops Proofs.KernelPrelude Proofs.KernelBridge2.
 Set Implicit Arguments. Unset Strict Implicit. Unset Printing Implicit Defensive.
 Import GRing.Theory.
 Local Open Scope ring_scope.
@@ -91,6 +98,47 @@ Theorem C01_det : \det (C + M *m L *m M^T) = \det C * \det L * \det (Li + M^T *m
 Proof. exact (det_B M HC HL). Qed.
 End Alg.
 
+(* ---------- (d) everything together ---------- *)
+Section Capstone.
+Variable (F : fieldType).
+Variables (lg : F -> F) (pi_ : F) (pw : F -> F) (mn : F -> F -> F) (ab : F -> F) (inf : F).
+Variables (orc : oracles F) (nt nl : nat) (fk : Z) (sK0 P0 mK t0 : F) (row : arr1 F).
+Let fo := mc_fops lg pi_ pw mn ab inf.
+
+Theorem C01_prelude_marginal (s : kst (F := F)) :
+  k_marginal_one fo orc (Z.of_nat nt) (Z.of_nat nl) fk sK0 P0 mK t0 row s
+  = likelihood_worker fo orc (Z.of_nat nt) (Z.of_nat nl) 0%Z (prelude_state fo orc nt fk sK0 P0 mK t0 row s).
+Proof. exact (marginal_one_prelude fo orc nt nl fk sK0 P0 mK t0 row s). Qed.
+
+(* what the prelude leaves for the worker: jittered inverse variances on every epoch, the K-variance rule with its cap in slot 0 *)
+Theorem C01_prelude_s_ivar (s : kst (F := F)) (n : nat) :
+  v_s_ivar (prelude_state fo orc nt fk sK0 P0 mK t0 row s) n
+  = if (Z.of_nat n <? Z.of_nat nt)%Z then jittered fo (v_ivar s) (row 4%N) n else v_s_ivar s n.
+Proof. exact (prelude_s_ivar fo orc nt fk sK0 P0 mK t0 row s n). Qed.
+Theorem C01_prelude_Lambda (s : kst (F := F)) (i : nat) :
+  v_Lambda (prelude_state fo orc nt fk sK0 P0 mK t0 row s) i
+  = if (fk =? 0)%Z && Nat.eqb i 0 then K_var_rule fo sK0 P0 mK (row 0%N) (row 1%N) else v_Lambda s i.
+Proof. exact (prelude_Lambda fo orc nt fk sK0 P0 mK t0 row s i). Qed.
+
+Theorem C01_marginal_is_gaussian (s : kst (F := F)) (Y U : arr2 F) :
+  let s1 := prelude_state fo orc nt fk sK0 P0 mK t0 row s in
+  o_inv orc nl (Atmp_arg fo nt nl s1) = Some Y ->
+  o_lu orc nt (Btmp_arg fo nt nl s1) = Some U ->
+  (forall n : 'I_nt, v_s_ivar s1 n != 0) -> (forall i : 'I_nl, v_Lambda s1 i != 0) ->
+  mx2 nl nl (pAinv fo nt (v_M_T s1) (v_s_ivar s1) (v_Lambda s1)) *m mx2 nl nl Y = 1%:M ->
+  let B := dg nt (fun n => (v_s_ivar s1 n)^-1) + Mx nt nl (v_M_T s1) *m dg nl (v_Lambda s1) *m (Mx nt nl (v_M_T s1))^T in
+  let r := resid nt nl (v_M_T s1) (v_mu s1) (v_rv s1) in
+  exists Bi : 'M[F]_nt,
+    B *m Bi = 1%:M /\ Bi *m B = 1%:M /\
+    snd (k_marginal_one fo orc (Z.of_nat nt) (Z.of_nat nl) fk sK0 P0 mK t0 row s)
+    = - (2%:R)^-1 * ((r^T *m Bi *m r) ord0 ord0 + logdet_val fo nt U).
+Proof. exact (@marginal_one_is_gaussian F lg pi_ pw mn ab inf orc nt nl fk sK0 P0 mK t0 row s Y U). Qed.
+End Capstone.
+
+Print Assumptions C01_prelude_marginal.
+Print Assumptions C01_prelude_s_ivar.
+Print Assumptions C01_prelude_Lambda.
+Print Assumptions C01_marginal_is_gaussian.
 Print Assumptions C01_jitter_cells.
 Print Assumptions C01_jitter_is_added_variance.
 Print Assumptions C01_slot_mean.
